@@ -332,7 +332,8 @@ func one(cfg Config) *Result {
 						mu.Lock()
 						n := bugNo[id]
 						mu.Unlock()
-						switch r.n(6) {
+						// three calls in four are edits that get committed (the share the refused edits must not eat into)
+						switch []int{0, 0, 0, 0, 2, 2, 3 + r.n(3), 3 + r.n(3)}[r.n(8)] {
 						case 0, 1:
 							_, op, err := b.AddComment(fmt.Sprintf("comment g%d k%d", g, k))
 							if err != nil && op != nil {
